@@ -1115,7 +1115,7 @@ def emit(tr):
         f = fns[k]
         params = " ".join(f"(v_{pn} : Z)" for pn, _ in f.params)
         extra = " (pu : margs)" if k == "from_custom" else ""
-        out.append(f"(* {f.where}, types.rs:{f.line}")
+        out.append(f"(* {f.where}")
         out.append(f"   {comment_safe(f.src)} *)")
         out.append(f"Definition g_{k} (c : cfg) (p : margs){extra} (fuel : nat) {params} : M {paren(COQ_TY[f.ret])} :=")
         body = pp(tr["compiled"][k], 1)
